@@ -100,7 +100,16 @@ def build_rom(d):
         ra = pyrtl.Input(aw, 'ra%d' % i)
         o = pyrtl.Output(bw, 'rd%d' % i)
         o <<= rom[ra]
+    if d.get('twin'):
+        # a second ROM of the same name and shape with other contents (memory names need not be unique), read at ra0
+        rom2 = pyrtl.RomBlock(bitwidth=bw, addrwidth=aw, romdata=twin_vals(d), name='rom', asynchronous=True, max_read_ports=None)
+        o = pyrtl.Output(bw, 'tw')
+        o <<= rom2[pyrtl.working_block().wirevector_by_name['ra0']]
     return pyrtl.working_block()
+
+
+def twin_vals(d):
+    return [(a * 5 + 1) % (1 << d['bw']) for a in range(1 << d['aw'])]
 
 
 designs.register_family('MEM', build_mem)
@@ -192,6 +201,8 @@ def cases(tier, seed):
                 d = {'fam': 'ROM', 'aw': aw, 'bw': bw, 'data': data, 'pad': pad, 'nr': 1 + (aw % 2)}
                 for be in ('sim', 'fast', 'compiled', 'synth', 'opt'):
                     out.append(dict(d, k='rom', backend=be))
+                    if data in ('list', 'dict') and not pad:
+                        out.append(dict(d, k='rom', backend=be, twin=True))
     return out
 
 
@@ -393,6 +404,12 @@ def run_rom(case, ob, site):
             if holes:
                 g = z3.Implies(z3.Not(z3.Or(*[a == h for h in holes])), g)
             goals.append(('rom[a]==romdata[a]:port%d' % i, g, site + ':value'))
+        if case.get('twin'):
+            a = v.inp('ra0', 0, aw)
+            e = z3.BitVecVal(0, bw)
+            for addr, x in enumerate(twin_vals(case)):
+                e = z3.If(a == addr, z3.BitVecVal(x, bw), e)
+            goals.append(('second-rom-of-the-same-name[a]==its-own-romdata[a]', to_bv(r.trace['tw'][0], bw + 1) == z3.ZeroExt(1, e), site + ':value'))
         ob.prove_all(goals, r.pc, v)
 
 
@@ -515,6 +532,10 @@ def replay(cex):
                 bad.append('read of missing rom[%d] returned %r instead of raising PyrtlError' % (a, trace['rd%d' % i][0]))
             elif trace['rd%d' % i][0] != exp[a]:
                 bad.append('rom[%d] = %r, romdata says %r' % (a, trace['rd%d' % i][0], exp[a]))
+        if case.get('twin'):
+            a = mv['inputs'].get('ra0', {}).get('0', 0)
+            if trace['tw'][0] != twin_vals(case)[a]:
+                bad.append('second ROM named rom: [%d] = %r, its romdata says %r' % (a, trace['tw'][0], twin_vals(case)[a]))
         return bool(bad), '\n'.join(bad)
     K = case.get('K', 1)
     bmc = case['k'] == 'bmc_uninit'
